@@ -358,7 +358,8 @@ def one(ctx, t, dialect, alias, unique=True):
                 i += 1
             if stripped != [x[:2] for x in t0]:
                 probs.append("(e) stripping the alias does not give the alias-free text")
-            elif any(x[0] == "ID" and x[1] == '"%s"' % alias for x in stripped):
+            elif any(x[0] == "ID" and x[1] == '"%s"' % alias for x in stripped) and \
+                    not any(n[0] == "id" and n[1].lower() == alias.lower() for n in T.walk(t)):
                 probs.append("(e) the alias occurs outside a field qualification")
             ctx.count("alias_compared")
     return probs, sql
@@ -487,6 +488,22 @@ def run(ctx):
                     for alias in (None, "tb"):
                         ctx.cls("signed-literal-under-minus")
                         judge(ctx, t, dialect, alias, "signed-literal", unique=False)
+    # alias shapes: an alias that IS one of the filter's field names, differs from one in letter
+    # case only, is a prefix / an extension of one, or is a word the dialect uses itself
+    fq, fp = T.ident("qty"), T.ident("price")
+    shapes = [("cmp", "gt", fq, T.I(5)), ("bool", "and", ("cmp", "gt", fq, T.I(5)), ("cmp", "lt", ("bin", "mul", fp, fq), T.I(100))),
+              ("cmp", "in", fq, T.lst(T.I(1), T.I(2))), ("cmp", "eq", ("un", "neg", fq), fp),
+              ("cmp", "eq", ("bin", "add", fq, fq), fp), ("un", "not", ("cmp", "eq", fq, ("lit", "null", "null"))),
+              ("cmp", "ge", T.call("length", T.ident("Name")), fq), T.call("contains", T.ident("Name"), T.ident("name"))]
+    j = 0
+    for t in shapes:
+        for alias in ("qty", "QTY", "Qty", "qt", "qtyx", "price", "pric", "name", "Name", "NAME", "q", "select", "t.x", "a b", "_"):
+            j += 1
+            if not ctx.mine(j):
+                continue
+            for dialect in dl:
+                judge(ctx, t, dialect, alias, "alias-shape", unique=False)
+                ctx.cls("alias-shape")
     # literal spellings outside the ABNF that a lexer built on \d / \w / \s may accept: IF a
     # filter is accepted, its SQL must still be well formed and mirror it
     exotic = [("a", T.lit("int", "\uff15")), ("a", T.lit("int", "-\u0663")), ("a", T.lit("int", "1\u0662")),
